@@ -254,9 +254,15 @@ Print Assumptions C19_draw_rows_bounded_bottom.
       text lines ++ sh blank rows ++ the rows of the rest (cell for cell the wrapping of the lines;
       the padding directly above the first Bar line, also for an empty vector; NO padding when
       there are only text lines);
-    - n' = bar rows + sh (sh not counted without padding); cursor_below' = true exactly for the
-      empty vector, and then the cursor really is at column 0 of row |C| + n, the row below the padded
-      region; otherwise it is wrap-pending at the right edge of the last row;
+    - n' = bar rows + sh (sh not counted without padding);
+    - empty vector, n < H: cursor_below' = true and the cursor really is at column 0 of row
+      |C| + n, the row below the padded region;
+    - empty vector, n >= H (after fix 881c313; then n = H: the region fills the screen): one padding
+      line less is written, cursor_below' = false, the cursor is at column 0 of the LAST row of the
+      region (row |C| + n - 1 = the bottom row of the screen: at the end of the last of n blank
+      rows), and the terminal did NOT scroll: the first visible row [t_top] is unchanged, it is
+      row |C|, the top of the region - the whole region stays within reach of the next draw;
+    - otherwise the cursor is wrap-pending at the right edge of the last row;
     - [ready] again (the next draw starts from the same kind of state) with the reach bookkeeping *)
 Theorem C19_bottom_draw_exact :
   forall (W H : N) (C F : list (list N)) (t : term) (ls : list line) (n : N) (below : bool),
@@ -270,12 +276,19 @@ Theorem C19_bottom_draw_exact :
   let d := draw_to_term ls n Bottom below W H in
   let t' := run_ops (N.to_nat W) (N.to_nat H) t (fst (fst d)) in
   snd (fst d) = bar_rows ls W + (if bottom_padded ls then sh else 0)
-  /\ snd d = match ls with [] => true | _ => false end
-  /\ ready (N.to_nat W) (N.to_nat H) (C ++ R) t'
-  /\ (ls = [] -> R = repeat [] (N.to_nat n) /\ t_col t' = 0%nat
-                 /\ t_row t' = (List.length C + N.to_nat n)%nat
-                 /\ reach t' = Nat.min (N.to_nat H - 1) (reach t))
-  /\ (ls <> [] -> t_col t' <> 0%nat
+  /\ snd d = match ls with [] => (n <? H) | _ => false end
+  /\ (ls = [] -> n < H ->
+        R = repeat [] (N.to_nat n) /\ ready (N.to_nat W) (N.to_nat H) (C ++ R) t' /\ t_col t' = 0%nat
+        /\ t_row t' = (List.length C + N.to_nat n)%nat
+        /\ reach t' = Nat.min (N.to_nat H - 1) (reach t))
+  /\ (ls = [] -> H <= n ->
+        n = H /\ below = false
+        /\ ready (N.to_nat W) (N.to_nat H) (C ++ repeat [] (N.to_nat n - 1)) t'
+        /\ (exists k, t' = at_end (C ++ repeat [] (N.to_nat n)) k (N.to_nat H - 1))
+        /\ t_col t' = 0%nat /\ S (t_row t') = (List.length C + N.to_nat n)%nat
+        /\ t_vis t' = (N.to_nat H - 1)%nat
+        /\ t_top t' = t_top t /\ t_top t' = List.length C)
+  /\ (ls <> [] -> ready (N.to_nat W) (N.to_nat H) (C ++ R) t' /\ t_col t' <> 0%nat
                   /\ reach t' = Nat.min (N.to_nat H) (reach t - N.to_nat n + List.length R))
   /\ rows_equiv (N.to_nat W) R
        (wrap (N.to_nat W) (map lt (text_prefix ls))
@@ -320,6 +333,22 @@ Example C19_bottom_draw_exact_nonvacuous :
   /\ snd (fst (draw_to_term ls 2 Bottom false 4 3)) = 2.
 Proof.
   cbv zeta. split; [apply (ready_edge 4 3 _ [t "AAAA"] (t "BBBB") 0 1); [reflexivity | reflexivity | vm_compute; lia]|].
+  vm_compute. repeat split; try lia; discriminate.
+Qed.
+
+(** ... and the branch n >= H of C19_bottom_draw_exact: 5x3 terminal filled by the frame
+    AAAAA / BBBBB / CCCCC, an empty vector: three blank rows, cursor on the last of them, flag false,
+    nothing scrolled *)
+Example C19_bottom_draw_exact_full_height_nonvacuous :
+  let t0 := app_state [t "AAAAA"; t "BBBBB"] (t "CCCCC") 0 2 in
+  let t1 := run_ops 5 3 t0 (fst (fst (draw_to_term [] 3 Bottom false 5 3))) in
+  ready 5 3 ([] ++ [t "AAAAA"; t "BBBBB"; t "CCCCC"]) t0 /\ (3 <= reach t0)%nat /\ t_col t0 <> 0%nat
+  /\ visual_line_count [] 5 < 3 /\ 3 <= 3
+  /\ all_rows t1 = [[]; []; []] /\ (t_top t1, t_row t1, t_col t1) = (0, 2, 0)%nat
+  /\ snd (draw_to_term [] 3 Bottom false 5 3) = false
+  /\ snd (fst (draw_to_term [] 3 Bottom false 5 3)) = 3.
+Proof.
+  cbv zeta. split; [apply (ready_edge 5 3 _ [t "AAAAA"; t "BBBBB"] (t "CCCCC") 0 2); [reflexivity | reflexivity | vm_compute; lia]|].
   vm_compute. repeat split; try lia; discriminate.
 Qed.
 
@@ -374,6 +403,33 @@ Example C19_bottom_empty_frame_witness :
   /\ tt_below (match ms_target (s_mp (fst (run_sys 40 10 (case_init bottom_empty_frame_case)
                                              (firstn 7 (c_ops bottom_empty_frame_case))))) with
                | TTerm tg => tg | _ => new_ttarget None 0 end) = true.
+Proof. vm_compute. repeat split. Qed.
+
+(** the witness of the defect fixed by 881c313 (found by C19_bottom_draw_exact's reach bookkeeping):
+    5x3 terminal; Bottom; add a, b, c; tick each (the region fills the screen); clear() three times;
+    a.tick().  Each clear pads with H - 1 lines only and leaves the cursor on the last row of the region
+    (cursor_below = false): nothing scrolls (first visible row 0 throughout), the rows ever
+    written are exactly the three rows of the region, which the last draw reuses *)
+Definition bottom_full_height_case : syscase :=
+  mkcase 5 3 [] None (ITerm None) bottom_bars
+    [(1, OSetAlign Bottom); (2, OInsert BEnd 0); (3, OInsert BEnd 1); (4, OInsert BEnd 2);
+     (5, OTick 0); (6, OTick 1); (7, OTick 2); (8, OMClear); (9, OMClear); (10, OMClear);
+     (11, OTick 0)] [].
+
+Definition term_after (c : syscase) (k : nat) : term :=
+  run_ops (N.to_nat (c_W c)) (N.to_nat (c_H c)) term_init
+          (List.concat (snd (run_sys (c_W c) (c_H c) (case_init c) (firstn k (c_ops c))))).
+
+Example C19_bottom_full_height_witness :
+  screen_after bottom_full_height_case 7 = [t "A"; t "B"; pad 5 (t "C")]
+  /\ map (screen_after bottom_full_height_case) [8; 9; 10]%nat = repeat [[]; []; []] 3
+  /\ screen_after bottom_full_height_case 11 = [t "A"; t "B"; pad 5 (t "C")]
+  /\ map (fun k => let x := term_after bottom_full_height_case k in (t_top x, t_row x, t_col x))
+         [7; 8; 9; 10; 11]%nat
+     = [(0, 2, 5); (0, 2, 0); (0, 2, 0); (0, 2, 0); (0, 2, 5)]%nat
+  /\ map (count_after bottom_full_height_case) [7; 8; 9; 10; 11]%nat = [3; 3; 3; 3; 3]
+  /\ nth 8 (snd (run_sys 5 3 (case_init bottom_full_height_case) (c_ops bottom_full_height_case))) []
+     = [TUp 2; TClear; TDown 1; TClear; TDown 1; TClear; TUp 2; TLine []; TLine []; TFlush].
 Proof. vm_compute. repeat split. Qed.
 
 (** C19_multi_rows_bounded is not vacuous: both witness histories start from last_line_count = 0,
